@@ -1060,6 +1060,12 @@ class Unit:
             k = text.rindex("}")
             text = text[:k] + "    " + ", ".join("pub %s" % x.strip() for x in g.split(",")) + ",\n" + text[k:]
             rw.count("R10 ghost field added to %s: %s" % (name, g))
+        if opts.get("as"):
+            # the item is declared under another name in this unit (two crates use the same type name)
+            text, nren = re.subn(r"\b(struct|enum)\s+%s\b" % re.escape(name), r"\1 %s" % opts["as"], text, count=1)
+            if nren != 1:
+                raise ExtractError("anchor lost: type %s to rename" % name)
+            rw.count("R5 type %s declared as %s (name only)" % (name, opts["as"]))
         line0 = f.line_of(it.start)
         self.types.append({"name": name, "file": rel, "line": line0})
         if opts.get("attr"):
